@@ -223,7 +223,9 @@ def gen_arith(r, op):
     raise ValueError(op)
 
 
-SIZE_W_UDF = [(1, 6), (2, 20), (3, 40), (4, 26), (5, 8)]
+SIZE_W_UDF = [(1, 6), (2, 20), (3, 40), (4, 26), (5, 8)]        # Array
+SIZE_W_K = [(1, 4), (2, 12), (3, 34), (4, 35), (5, 15)]          # bounded heaps
+SIZE_W_ARG1 = [(1, 8), (2, 27), (3, 40), (4, 20), (5, 5)]        # ArgMin, ArgMax, Set
 SIZE_W_NATIVE = [(1, 8), (2, 30), (3, 45), (4, 15), (5, 2)]
 
 
@@ -245,19 +247,22 @@ def gen_pool(r, vt, size, distinct):
 
 
 def gen_agg(r, op, excl):
-    n = pick_w(r, SIZE_W_UDF if op in UDF_AGGS else SIZE_W_NATIVE)
+    n = pick_w(r, SIZE_W_K if op in ('ArgMinK', 'ArgMaxK') else
+               SIZE_W_ARG1 if op in ('ArgMin', 'ArgMax', 'Set') else
+               SIZE_W_UDF if op == 'Array' else SIZE_W_NATIVE)
     if op in ('Sum', 'Avg'):
         vt = g_type(r, ('int', 'num'))
     else:
         vt = g_type(r)
     kt = r.choice(['int', 'str'])
     # ordering / aggregated values: a small pool so that ties and duplicates are common
-    distinct_vals = P(r, 35)
+    isk = op in ('ArgMinK', 'ArgMaxK')
+    distinct_vals = P(r, 60 if isk else 35)
     pool = gen_pool(r, vt, n if distinct_vals else r.randint(1, 3), distinct_vals)
     keymode = r.choice(['distinct', 'distinct', 'dups'])
     rows = []
     for i in range(n):
-        g = 0 if P(r, 70) else 1
+        g = 0 if P(r, 88 if isk else 70) else 1
         if keymode == 'distinct':
             k = i + 1 if kt == 'int' else 'abcde'[i]
         else:
@@ -269,7 +274,7 @@ def gen_agg(r, op, excl):
     if n >= 2 and P(r, 20):
         rows[r.randint(0, n - 1)] = list(rows[r.randint(0, n - 1)])   # duplicate row
     # nulls in the aggregated / ordering value
-    if P(r, 30):
+    if P(r, 18 if isk else 30):
         for _ in range(r.randint(1, 2)):
             rows[r.randint(0, n - 1)][2] = None
     form = r.choice(['head0', 'head0', 'headk', 'expr', 'expr'])
@@ -281,7 +286,11 @@ def gen_agg(r, op, excl):
     if op == 'Sum':
         case['style'] = r.choice(['plus', 'name'])
     if op in ('ArgMinK', 'ArgMaxK'):
-        case['K'] = r.randint(1, n + 1)
+        # K from 1 to n+1; the bounded heap only works when K < n
+        ks = [r.randint(1, max(1, n - 1))] * 3 + [n, n + 1]
+        if n >= 4:
+            ks += [r.randint(2, n - 2)] * 4      # heap is full and is updated twice
+        case['K'] = r.choice(ks)
         case['style'] = r.choice(['defn', 'defn', 'aggr']) if form != 'expr' else 'defn'
     if op == 'Array':
         # Array= v -> k: v is the ordering key (never null: not modelled), k the element
@@ -741,7 +750,11 @@ def run_case(case):
 
 def slot_cost(b):
     """Expected number of programs per case (for balancing shards)."""
-    return 18.7 if b in UDF_AGGS else 9.4 if b in AGGS else 0.6
+    if b in ('ArgMinK', 'ArgMaxK'):
+        return 28.7
+    if b in ('ArgMin', 'ArgMax', 'Set'):
+        return 13.8
+    return 18.7 if b == 'Array' else 9.4 if b in AGGS else 0.6
 
 
 def assign_slots(n):
